@@ -501,6 +501,8 @@ func runC02(c *Ctx) {
 		c.lockReleasedRule("R6", lf)
 	}
 	c.consumingLoopsRule("R7", p)
+	r.Rule("R9", "nothing the event loop waits for can loop for ever on some input: every loop in the built-in handlers, in everything they call (command API, tracker) and in the dispatch machinery terminates by shape - range over a finite collection, counter advancing towards a loop-invariant bound, text that gets strictly shorter, or walk of a linked structure; a retry loop whose exit depends on a lookup or on a user-supplied function is not accepted")
+	c.loopVariantRule("R9", p)
 	c.writeErrorsRule("R8")
 
 	// R4
